@@ -155,6 +155,27 @@ def run(ctx):
             if len(knees) >= 2 and rng.random() < 0.12:
                 rng.shuffle(knees)                          # the marker list in another order: right-to-left gaps
             one(ctx, 'add_points_even_knees', pts, list(range(n)), knees, tx, ty, extremes, fam)
+    long_cases(ctx)
+
+
+def long_cases(ctx):
+    """LONG curves (beyond 1024 / 4096 points) with many knees and many retained segments: chunked / strided / capped processing"""
+    import kneeliverse.rdp as rdp
+    rng = ctx.rng
+    for _ in range(3 if ctx.tier == 'quick' else 40):
+        n = rng.choice([rng.randrange(1100, 2000), rng.randrange(4097, 5200)])
+        xs = np.arange(n, dtype=float)
+        ys = np.round(65536.0 * np.exp(-rng.choice([0.0008, 0.002]) * xs)) / 16.0 + np.array([rng.randrange(0, 8) / 4.0 for _ in range(n)])
+        pts = np.column_stack([xs, ys])
+        tx, ty = rng.choice([0.01, 0.005, 0.02]), rng.choice([0.001, 0.01])
+        extremes = rng.random() < 0.5
+        if rng.random() < 0.5:
+            reduced = gen.random_subset_with_ends(rng, n, rng.randrange(20, 120))
+            knees = sorted(rng.sample(range(len(reduced)), rng.randrange(5, 20)))
+            one(ctx, 'add_points_even', pts, reduced, knees, tx, ty, extremes, 'long-trace', False)
+        else:
+            knees = sorted(rng.sample(range(1, n - 1), rng.randrange(10, 60)))
+            one(ctx, 'add_points_even_knees', pts, list(range(n)), knees, tx, ty, extremes, 'long-trace', False)
 
 
 def replay(ctx, body):
